@@ -27,7 +27,7 @@ MANIFEST_ENTRY = {
 }
 RULE = ("a case is one estimator call on one image pair; distinct non-trivial = distinct (stream, variant, shape parity/squareness, "
         "upsample factor, shift class [zero/within half/beyond half/at half/sub-pixel], max_shift used, fft_input/fft_output flags) "
-        "with a non-constant image")
+        "with a non-constant image; the drift stream adds (canvas parity, stack size, upsample factor)")
 TRUSTED = ["np.fft.fft2/ifft2 and torch.fft.fft2/ifft2 compute the defining DFT sums (exercised by every stream)",
            "torch.argmax/np.argmax return the first maximum; torch.round rounds half to even",
            "the correlation theorem (FFT product = spatial circular cross-correlation) is not proved in Lean; it is what the exact stream measures"]
@@ -643,6 +643,60 @@ def gen_users(rng):
             "ts": [[rng.randint(0, M - 1), rng.randint(0, N - 1)] for _ in range(rng.randint(2, 3))]}
 
 
+def case_drift(ctx, case):
+    """the NumPy estimator as used by imaging.drift.DriftCorrection.align_translation: the warped stack is
+    replaced by 3-4 circular integer translations of one canvas image; the loop (estimator + running
+    reference built from the returned aligned images) must come back with the applied relative shifts"""
+    import contextlib
+    import io
+    from qv.prng import Rng
+    from quantem.imaging.drift import DriftCorrection
+    H, W, n, up, ts = case["H"], case["W"], case["n"], case["up"], case["ts"]
+    rng = Rng(case["sub"])
+    seed_img = np.array(gen_int_image(rng, H, W), dtype=float)
+    dc = DriftCorrection.from_data([seed_img.copy() for _ in range(n)], [case["deg"]] * n).preprocess(
+        pad_fraction=case["pad"], pad_value="median", kde_sigma=0.5, number_knots=case["nk"])
+    Hc, Wc = int(dc.shape[1]), int(dc.shape[2])
+    canvas = np.array(gen_int_image(rng, Hc, Wc), dtype=float)
+    if not unique_peak(cc_int(canvas, canvas))[0]:
+        ctx.dist["drift:rejected(non-unique autocorrelation peak)"] += 1
+        return
+    ctx.count()
+    ctx.dist[f"drift:n={n}"] += 1
+    ctx.dist[f"drift:up={up}"] += 1
+    ctx.dist[f"drift:canvas={shape_sig(Hc, Wc)}"] += 1
+    for i, t in enumerate(ts):
+        dc.images_warped.array[i] = np.roll(canvas, (t[0], t[1]), (0, 1))
+    k0 = [np.array(k, dtype=float, copy=True) for k in dc.knots]
+    with contextlib.redirect_stdout(io.StringIO()):
+        dc.align_translation(upsample_factor=up, max_image_shift=case["max_shift"], show_merged=False)
+    obs = np.array([[float((np.asarray(k1, dtype=float) - k)[c].flat[0]) for c in (0, 1)] for k1, k in zip(dc.knots, k0)])
+    # image i is canvas rolled by t_i, the reference is image 0 (t_0 = 0): the shift that maps it back is -t_i
+    raw = np.array([[-float(t[0]), -float(t[1])] for t in ts])
+    exp = raw - raw.mean(axis=0)
+    err = float(np.max(np.abs(obs - exp)))
+    ctx.stat_max(f"integer_shift_err[np-user-drift-align,{up_key(up)}]", err)
+    if not err <= TOL32:   # float32 canvases, complex64 FFT
+        ctx.pred_fail(f"np-user-drift-align-{up_key(up)}",
+                      "align_translation on a stack of circularly translated copies does not return the applied relative translations "
+                      "(estimator + running reference of aligned images)", case,
+                      observed=obs.tolist(), required=exp.tolist())
+    ctx.mark(("drift", shape_sig(Hc, Wc), n, up))
+    ctx.sample(case, limit=7)
+
+
+def gen_drift(rng):
+    H = rng.randint(5, 9)
+    W = H if rng.chance(0.25) else rng.randint(5, 9)
+    n = rng.randint(3, 4)
+    ts = [[0, 0]] + [[rng.randint(-2, 2), rng.randint(-2, 2)] for _ in range(n - 1)]
+    if ts[1] == [0, 0]:
+        ts[1] = [1, -1]   # a non-zero shift on an image before the last one
+    return {"stream": "drift", "H": H, "W": W, "pad": rng.choice([0.25, 0.5]), "deg": rng.choice([0, 30, 90, 200]),
+            "nk": rng.randint(1, 2), "n": n, "up": rng.choice([1, 2, 3, 4, 5, 8]), "ts": ts,
+            "max_shift": rng.choice([32, 32, 4]), "sub": rng.next() & 0xFFFFFFFF}
+
+
 def run_case(ctx, drv, case):
     s = case["stream"]
     if s == "exact":
@@ -655,6 +709,8 @@ def run_case(ctx, drv, case):
         case_kernels(ctx, drv, case)
     elif s == "users":
         case_users(ctx, case)
+    elif s == "drift":
+        case_drift(ctx, case)
     else:
         raise ValueError(s)
 
@@ -691,6 +747,9 @@ def run(ctx):
         rng = ctx.rng.fork(5)
         for i in range(ctx.n(12, 150)):
             run_case(ctx, drv, gen_users(rng.fork(i)))
+        rng = ctx.rng.fork(6)
+        for i in range(ctx.n(30, 300)):
+            run_case(ctx, drv, gen_drift(rng.fork(i)))
     finally:
         drv.close()
 
